@@ -42,7 +42,7 @@ pub static C18_NET: Scenario = Scenario {
     id: "C18",
     name: "c18-inflight-network",
     run: run_c18_net,
-    quick_runs: 1500,
+    quick_runs: 4000,
     thorough_runs: 60_000,
     rule: "one run = a server Network whose service is wrapped in the real InflightLimitLayer and 2-3 client Networks issuing concurrent RPCs (the peer identity comes from the simulated handshake), over a clean or lossy fabric; distinct = distinct order signature; non-trivial = the limit was reached",
     real: super::REAL_NET,
@@ -75,7 +75,7 @@ pub static C19_NET: Scenario = Scenario {
     id: "C19",
     name: "c19-ratelimit-network",
     run: run_c19_net,
-    quick_runs: 1500,
+    quick_runs: 4000,
     thorough_runs: 60_000,
     rule: "one run = a server Network whose service is wrapped in the real RateLimitLayer (burst 1-4, one cell per 20-500 ms) and 2-3 client Networks issuing RPCs at PRNG instants over a clean or lossy fabric, some of them over a second connection that replaces the first (the quota belongs to the peer, not to the connection) and with a forged peer-id header; oracle = the server-side admission instants of every client against the bucket replay (burst cells; burst+1 = known finding F-D), every admitted request attributed to the client that sent it, refusals never reach the service and carry a hint, Block mode refuses nothing and serves everything in the end; distinct = distinct order signature; non-trivial = at least one request over quota",
     real: super::REAL_NET,
@@ -97,7 +97,7 @@ pub static C20_NET: Scenario = Scenario {
     id: "C20",
     name: "c20-auth-network",
     run: run_c20_net,
-    quick_runs: 1500,
+    quick_runs: 4000,
     thorough_runs: 60_000,
     rule: "one run = a server Network behind RequireAuthorizationLayer(AllowedPeers(L)) with 3-5 client Networks of which a PRNG subset is in L (sender identity = what the simulated TLS handshake authenticated), concurrent requests over a clean or lossy fabric; distinct = distinct order signature; non-trivial = both listed and unlisted senders called",
     real: super::REAL_NET,
